@@ -5,6 +5,7 @@ import (
 	"strings"
 	"sync"
 	"testing"
+	"time"
 
 	"go.uber.org/zap"
 	"go.uber.org/zap/zapcore"
@@ -57,6 +58,9 @@ func v2Server() (*sut.SUT, *observer.ObservedLogs) {
 		v2Logs = logs
 		v2SUT = sut.NewWithDS(semkit.Plain().DS,
 			server.WithExperimentals("weighted_graph_check"),
+			// a resolution that does not terminate must come back as a failed request (the default engine answers
+			// these worlds in milliseconds), not wedge the process
+			server.WithRequestTimeout(4*time.Second),
 			server.WithLogger(&logger.ZapLogger{Logger: zap.New(core)}))
 	})
 	return v2SUT, v2Logs
@@ -138,6 +142,38 @@ func checkC03(env *fw.Env, c C03Case) *fw.Failure {
 		}
 		if e1 == nil && a1 != a2 {
 			classes = append(classes, "divergence-reported:"+reason)
+		}
+	}
+	// the same world on the sqlite backend (a fifth of the cases, decided by the case itself): object subjects only
+	if len(c.Requests) > 0 && len(c.World.Tuples)%5 == 0 {
+		if sp, sv2, err := sqliteServers(); err == nil {
+			// written in the reverse order: a SQL backend returns rows in insertion order unless it sorts them
+			rev := gen.World{Model: c.World.Model, Left: c.World.Left}
+			for i := len(c.World.Tuples) - 1; i >= 0; i-- {
+				rev.Tuples = append(rev.Tuples, c.World.Tuples[i])
+			}
+			if sStore, sModel, f := semkit.SetupWorld(env, sp, rev); f == nil && sStore != "" {
+				for _, r := range c.Requests {
+					if m.UserKind(r.User) != "object" {
+						continue
+					}
+					exp, unk := semkit.RefCheck(c.World, r)
+					for name, srv := range map[string]*sut.SUT{"default": sp, "weighted": sv2} {
+						a, e := srv.Check(context.Background(), sStore, sModel, r)
+						if semkit.IsTooComplex(e) || (e != nil && unk) {
+							continue
+						}
+						if ok, why := semkit.CompareCheck(exp, unk, a, e); !ok {
+							sig := semkit.ClassifyCheck(c.World, r, exp, a, e)
+							if sig == "" && name == "weighted" && e != nil {
+								sig = semkit.ClassifyV2Error(c.World, e, unk)
+							}
+							return fw.Failf(sig, "sqlite backend, %s engine: Check(%s): %s\n%s", name, r, why, semkit.Describe(c.World))
+						}
+					}
+				}
+				classes = append(classes, "backend:sqlite")
+			}
 		}
 	}
 	nt := weightedAnswered && semkit.NonDirect(c.World.Model)
